@@ -11,6 +11,9 @@ CorrsV == Ident \cup {m \in GapMaps : \A i \in 1..N : m[i] >= 1}
 InitE == Init /\ count0 = count
 NextE == Next /\ UNCHANGED count0
 SpecE == InitE /\ [][NextE]_<<vars, count0>>
+(* C05: serialised at ANY point of its life the stream describes exactly the occurrences not yet consumed *)
+Total == IF count0 < 0 \/ count0 > N THEN N ELSE count0
+SerialiseOk == ~ended => Reparsed = [i \in 1..(Total - Len(popped)) |-> Len(popped) + i]
 (* when the correction only collapses members (non-decreasing) nothing but the duplicates is lost *)
 NonDecr == \A i \in 1..(N - 1) : corr[i] <= corr[i + 1]
 NothingLost == (ended /\ NonDecr /\ count0 < 0) => {popped[i] : i \in 1..Len(popped)} = {corr[j] : j \in 1..N}
